@@ -124,6 +124,8 @@ func verif_fresh[T any](x T) bool { panic("verif: spec only") }
 func verif_rangeseen[K any](k K) bool { panic("verif: spec only") }
 func verif_invoked[F any](f F) bool { panic("verif: spec only") }
 func verif_tally(name string) int { panic("verif: spec only") }
+func verif_streamPos[T any](it T) int { panic("verif: spec only") }
+func verif_calls[T any](recv T, method string) int { panic("verif: spec only") }
 func verif_entry[T any](x T) T { return x }
 func verif_offset[T any](s []T) int { panic("verif: spec only") }
 func verif_f64bits(x float64) verifInt { panic("verif: spec only") }
